@@ -81,3 +81,16 @@ func VerifPrintFieldStyle(name string, number int32, elem protoreflect.Descripto
 func VerifFieldTypeName(field protoreflect.FieldDescriptor) (string, error) {
 	return fieldTypeName(field)
 }
+
+// VerifStatements is the real parseOption: the printed name (after Simplify) and the value of
+// every statement the option is written as.
+func VerifStatements(opt *optionreflect.OptionDefinition) (name string, values []optionreflect.OptionField) {
+	for _, p := range parseOption(opt) {
+		name = p.qualifiedName
+		values = append(values, p.root)
+	}
+	if name == "" {
+		name = optionFullName(opt)
+	}
+	return name, values
+}
